@@ -112,3 +112,16 @@ func vSeed() int64 {
 }
 
 func vhookInstall(h func(point string, kv ...interface{})) { vhook.Install(h) }
+
+// vInitArgs is vInit with caller-supplied client arguments.
+func vInitArgs(args *config.Args) {
+	vInitOnce.Do(func() {
+		if os.Getenv("DTAIL_HOSTNAME_OVERRIDE") == "" {
+			os.Setenv("DTAIL_HOSTNAME_OVERRIDE", "vhost")
+		}
+		config.Setup(source.Client, args, nil)
+		var wg sync.WaitGroup
+		wg.Add(1)
+		dlog.Start(context.Background(), &wg, source.Client)
+	})
+}
